@@ -130,7 +130,7 @@ pub fn body_op(p: Profile, as_client: bool, v5: bool, hostile: BoxedStrategy<Op>
     if p.publish > 0 {
         alts.push((
             w(p.publish),
-            (0u8..=2, 0u8..4, am_local, 0u8..6, any::<bool>(), id_src())
+            (0u8..=2, 0u8..4, am_local, if p.alias_heavy { prop_oneof![5 => 0u8..6, 1 => 6u8..66].boxed() } else { (0u8..6).boxed() }, any::<bool>(), id_src())
                 .prop_map(|(qos, topic, alias, plen, retain, id)| Op::Publish { qos, topic, alias, plen, retain, id })
                 .boxed(),
         ));
